@@ -61,9 +61,18 @@ int symtab_add_matchbind_from_matchbind_list(symtab * tab, match_guard_record * 
     enumtype * enumtype_value = guard_record->enumtype_value;
     enumerator * enumerator_value = guard_record->enumerator_value;
 
+    /* an unresolved enumerator or a wrong number of binds has been diagnosed
+     * by the guard check: bind what can be bound */
+    if (enumerator_value == NULL ||
+        enumerator_value->record_value == NULL ||
+        enumerator_value->record_value->params == NULL)
+    {
+        return 0;
+    }
+
     matchbind_list_node * matchbind_node = matchbinds->tail;
     param_list_node * param_node = enumerator_value->record_value->params->tail;
-    while (param_node != NULL || matchbind_node != NULL)
+    while (param_node != NULL && matchbind_node != NULL)
     {
         param * param_value = param_node->value;
         matchbind * matchbind_value = matchbind_node->value;
